@@ -3704,8 +3704,8 @@ reify(Expr, B, Ps) :-
         ;   domain_error(clpz_reifiable_expression, Expr)
         ).
 
-reifiable(E)      :- var(E), non_monotonic(E).
-reifiable(E)      :- integer(E), E in 0..1.
+reifiable(E)      :- var(E), !, non_monotonic(E).
+reifiable(E)      :- integer(E), !, E in 0..1.
 reifiable(?(E))   :- must_be_fd_integer(E).
 reifiable(#E)     :- must_be_fd_integer(E).
 reifiable(V in _) :- fd_variable(V).
